@@ -1068,6 +1068,9 @@ class TorConfig:
                             initial = []
                         else:
                             initial = [default]
+                elif isinstance(v, list):
+                    # the option was given several times
+                    initial = [self.parsers[rn].parse(x) for x in v]
                 else:
                     initial = [self.parsers[rn].parse(v)]
                 self.config[rn] = _ListWrapper(
